@@ -11,6 +11,7 @@ HSpec (JSON):
 vlib.mat.walk / typegen value tools work on `h._xobject` unchanged.
 """
 
+import copy
 import math
 
 import numpy as np
@@ -231,7 +232,7 @@ def expected(h, value):
 def default_of(f):
     t = f["t"]
     if "default" in f:
-        return f["default"]
+        return copy.deepcopy(f["default"])  # models are mutated in place: never hand out the spec's own object
     if t["k"] == "scalar":
         return 0.0 if t["t"].startswith("Float") else 0
     if t["k"] == "array":
